@@ -33,6 +33,8 @@ def prop(line, impl, model):
             return prop_jwrite(line, impl)
         if op == "jkey":
             return prop_jkey(line, impl)
+        if op == "jbig":
+            return prop_jbig(line, impl)
         if op == "jipc":
             return (prop_jipc(line, impl) or (None, None))[1]
         if op == "jwf":
@@ -437,6 +439,20 @@ def prop_jkey(line, impl):
     return None
 
 
+def prop_jbig(line, impl):
+    """three chunks inside the window, the middle one with n addresses: all three are read and the estimate is that of n + 12"""
+    n = int(line.split(" ")[2])
+    d = kv(impl)
+    if d["chunks"] != "3" or d["sum"].startswith("low"):
+        return ("a journal of three chunks, all inside the query window, holding 5, %d and 7 distinct addresses: the reader included %s chunk(s) "
+                "and its estimate is %s (want 3 chunks, %d addresses within 1 %%) and it reported no error - a chunk of that many addresses is ONE "
+                "journal line of more than 64 KiB, bufio.Scanner gives up on it and ClusterCounter.Count takes that for the end of the journal: "
+                "the chunk and everything behind it are silently left out" % (n, d["chunks"], d["sum"], n + 12))
+    if d["sum"] != "ok":
+        return "a journal of three chunks holding %d distinct addresses: estimate %s" % (n + 12, d["sum"])
+    return None
+
+
 def gen_journal(ctx):
     rng = ctx.rng
     thorough = ctx.tier == "thorough"
@@ -468,6 +484,9 @@ def gen_journal(ctx):
         n = rng.choice([17, 40, 60])
         base = rng.randrange(100, 60000)
         add("jwin 0 100 0:50:%s;50:100:%s" % (".".join(str(base + i) for i in range(n)), ".".join(str(base + n // 2 + i) for i in range(n))), "jwin-larger-sets")
+    # journal lines around and beyond the 64 KiB of the reader's default scanner buffer (20 000 addresses: 61 585 bytes)
+    for n in [0, 1000, 20000, 25000, 40000] + ([100000, 300000] if thorough else []):
+        add("jbig %d" % n, "jbig-long-journal-line")
     # what a chunk stores: keyed hashes only
     for ks in ("1.2", "1.1", "7.3"):
         for ipl in ("-", "5", "5.5.5", "1.2.3.4.5.6.7.8", ".".join(str(1000 + i) for i in range(40))):
@@ -909,6 +928,8 @@ def key_of(line, impl, model):
         return "journal-writer"
     if op == "jkey":
         return "journal-not-keyed-sketch"
+    if op == "jbig":
+        return "journal-reader-drops-long-line"
     if op == "jipc":
         try:
             return (prop_jipc(line, impl) or ("journal-broker", None))[0]
@@ -1019,7 +1040,7 @@ def replay(ctx, doc):
         if not case:
             continue
         m = vlib.run_model([case])[0]
-        if case.split(" ")[1] in ("jwin", "jwrite", "jkey", "jwf"):
+        if case.split(" ")[1] in ("jwin", "jwrite", "jkey", "jwf", "jbig"):
             rc, r, err = vlib.run_impl(vlib.go_build("./zz_verif/c19journal"), [case])
         else:
             rc, r, err = vlib.run_impl(exe, [case], args=DRV_ARGS)
